@@ -235,7 +235,13 @@ def run_family(fam, programs, log):
         jpath = os.path.join(td, "kani_out.json")
         if os.path.exists(jpath):
             os.remove(jpath)
-        cmd = kani_cmd(fam, ["-j", str(jobs), "--export-json", jpath, "--target-dir", td])
+        hsel = []
+        if sum(len(p.harnesses) for p in progs) <= 8:
+            for p in progs:
+                for h in p.harnesses:
+                    hsel += ["--harness", "%s::proofs::%s" % (p.key, h.name)]
+            hsel += ["--exact"]
+        cmd = kani_cmd(fam, ["-j", str(jobs), "--export-json", jpath, "--target-dir", td] + hsel)
         log("$ (cd %s && %s)" % (cd, " ".join(cmd)))
         # overall timeout: generous; each harness has its own timeout
         n_h = sum(len(p.harnesses) for p in progs)
@@ -262,8 +268,8 @@ def run_family(fam, programs, log):
                 js = json.load(open(jpath))
             except Exception:
                 js = {}
-        props = {d["harness_id"]: d["property_details"] for d in js.get("property_details", [])}
-        stats = {d["harness_id"]: d.get("cbmc_stats", {}) for d in js.get("cbmc", [])}
+        props = {d["harness_id"]: (d.get("property_details") or {}) for d in js.get("property_details", [])}
+        stats = {d["harness_id"]: (d.get("cbmc_stats") or {}) for d in js.get("cbmc", [])}
         errs = {d["harness_id"]: d for d in js.get("error_details", [])}
         results = {}
         for p in progs:
@@ -332,7 +338,7 @@ def playback(fam, prog, h, log, want_cover=None):
         return None, test_src, out[-4000:]
     tname = mname.group(1)
     # insert the test into the program module's `mod proofs` (generated crate: editing is fine)
-    path = os.path.join(cd, "src", prog.key + ".rs")
+    path = os.path.join(cd, prog.meta.get("proofs_file", os.path.join("src", prog.key + ".rs")))
     src = open(path).read()
     marker = "// PLAYBACK-INSERTION-POINT"
     if marker not in src:
